@@ -153,3 +153,25 @@ fn removing_an_expired_but_undispatched_timer_leaves_nothing() {
         assert!(t.elapsed() >= Duration::from_millis(140), "dispatch returned after {:?}: a cancelled arming is still in the wheel", t.elapsed());
     }
 }
+
+#[test]
+fn rearming_to_an_unrepresentable_deadline_cancels_the_pending_one() {
+    // a pending timer is re-programmed to a deadline that overflows Instant (nothing is armed any more) and
+    // re-registered: its old deadline must not stay in the wheel and cut later waits short
+    let mut el: EventLoop<'static, Log> = EventLoop::try_new().unwrap();
+    let (d, tok) = timer(&el, 1, Instant::now() + Duration::from_millis(80));
+    d.as_source_mut().set_duration(Duration::MAX);
+    assert!(d.as_source_ref().current_deadline().is_none());
+    el.handle().update(&tok).unwrap();
+    let mut log = Log::default();
+    let t = Instant::now();
+    el.dispatch(Duration::from_millis(300), &mut log).unwrap();
+    assert!(t.elapsed() >= Duration::from_millis(290), "the wait was cut short at the cancelled deadline ({:?})", t.elapsed());
+    assert!(log.is_empty(), "a timer without a deadline fired");
+    // re-arming it afterwards works
+    d.as_source_mut().set_duration(Duration::from_millis(10));
+    el.handle().update(&tok).unwrap();
+    run_for(&mut el, &mut log, Duration::from_millis(100));
+    assert_eq!(log.len(), 1);
+    check_never_early(&log);
+}
